@@ -50,7 +50,7 @@ class Job:
     """One proof job = one harness file discharged against the extraction of one unit in one configuration."""
     def __init__(s, id, props, unit, harness, roots=None, stubs=None, entry='harness', cfgs=(BASE,), thorough_cfgs=None,
                  dfcc=None, unwind=None, flags=(), timeout=600, mem_gb=12, tier='quick', defines=(), floor=1,
-                 under_contract=(), trusted=(), bounded=None, replay=None, objbits=None, solver=None, variants=None, cut=(), unwindset=None, unwindset_raw=None):
+                 under_contract=(), trusted=(), bounded=None, replay=None, objbits=None, solver=None, variants=None, cut=(), unwindset=None, unwindset_raw=None, memsafe=True):
         s.id = id; s.props = list(props); s.unit = unit; s.harness = harness
         s.roots = collections.OrderedDict(roots or {}); s.stubs = collections.OrderedDict(stubs or {})
         s.entry = entry; s.cfgs = list(cfgs); s.thorough_cfgs = list(thorough_cfgs) if thorough_cfgs else None
@@ -61,6 +61,7 @@ class Job:
         s.trusted = list(trusted); s.bounded = bounded; s.replay = replay; s.objbits = objbits; s.solver = solver
         s.unwindset = dict(unwindset or {})   # {ALIAS: bound}: tighter bound for every loop of that extracted function
         s.unwindset_raw = dict(unwindset_raw or {})   # {'c_function.loopnumber': bound} for harness/spec loops
+        s.memsafe = memsafe      # False: functional obligations only (no --pointer-check/--bounds-check instrumentation of every access)
         s.cut = list(cut)        # loops closed by an invariant at the natural-loop head: 'ALIAS/label'
         s.variants = variants    # optional list of (suffix, extra_defines): the same harness discharged once per case split
 
@@ -188,8 +189,7 @@ def run_job(job, cfg, scratch, keep=False, variant=None):
             rc, so, se, dt = sh(cmd, timeout=900, mem_gb=job.mem_gb)
             if rc != 0: raise Undecided('goto-instrument --dfcc failed: %s' % (se + so)[-3000:])
             cur = gb2
-        cb = ['cbmc', cur, '--no-standard-checks', '--bounds-check', '--pointer-check', '--div-by-zero-check', '--no-malloc-may-fail',
-              '--slice-formula']
+        cb = ['cbmc', cur, '--no-standard-checks'] + (['--bounds-check', '--pointer-check', '--div-by-zero-check'] if job.memsafe else []) + ['--no-malloc-may-fail', '--slice-formula']
         if job.unwind: cb += ['--unwind', str(job.unwind), '--unwinding-assertions']
         for a_, n_ in job.unwindset.items():
             m_ = re.search(r'^#define %s (\w+)$' % re.escape(a_), tr['types'], flags=re.M)
